@@ -652,6 +652,24 @@ class ImplRun:
                 self.fail("selection:%s" % name, "selection does not consist of the selected atom objects")
             if res.lattice is not pre["lats"][op[1]]:
                 self.fail("selection-lattice:%s" % name, "selection does not share the lattice of its source")
+        # (f) distinct atom objects share no coordinate / displacement storage ("editing one never changes the other"):
+        # structural aliasing of the arrays behind xyz and U, plus a behavioural probe on the isotropic value
+        bufs = {}
+        seen_atoms = {}
+        for h, s in live:
+            for a in list.__iter__(s):
+                seen_atoms.setdefault(id(a), a)
+        for a in seen_atoms.values():
+            for nm in ("xyz", "_U"):
+                arr = getattr(a, nm, None)
+                if arr is None or not hasattr(arr, "__array_interface__"):
+                    continue
+                addr = arr.__array_interface__["data"][0]
+                other = bufs.setdefault((nm, addr), a)
+                if other is not a:
+                    self.fail("copy-shares-storage:%s" % name, "after %s two different atom objects (payloads %s, %s) share the array behind %s" % (
+                        name, other.payload, a.payload, nm))
+                    break
         # (d) no atom in two slots unless asked
         asked = self.asked_dup(op, pre)
         for h, s in live:
